@@ -90,7 +90,10 @@ def functions(toks):
                 # find the '{' of this block (skipping generics / where clauses)
                 j = i + 1
                 name_toks = []
-                while j < hi and toks[j][1] not in ("{", ";"):
+                depth = 0
+                while j < hi and not (depth == 0 and toks[j][1] in ("{", ";")):
+                    if toks[j][1] in ("[", "("): depth += 1
+                    elif toks[j][1] in ("]", ")"): depth -= 1
                     name_toks.append(toks[j]); j += 1
                 if j < hi and toks[j][1] == "{":
                     e = match_brace(toks, j)
@@ -103,7 +106,10 @@ def functions(toks):
             if k == "id" and v == "fn" and i + 1 < hi and toks[i + 1][0] == "id":
                 name = toks[i + 1][1]
                 j = i + 2
-                while j < hi and toks[j][1] not in ("{", ";"):
+                depth = 0
+                while j < hi and not (depth == 0 and toks[j][1] in ("{", ";")):
+                    if toks[j][1] in ("[", "("): depth += 1
+                    elif toks[j][1] in ("]", ")"): depth -= 1
                     j += 1
                 if j < hi and toks[j][1] == "{":
                     e = match_brace(toks, j)
@@ -654,6 +660,45 @@ def gen_tydesc(repo):
     return "\n".join(out) + "\n"
 
 
+
+def gen_zig_norm_tail(repo):
+    """the base strip of the normal ziggurat: X_1 F_1 + integral_r^40 exp(-x^2/2) dx = X_0 F_1 up to 1e-8 (the integral beyond 40 is < 1e-340)"""
+    import decimal
+    src = open(os.path.join(repo, "src", "ziggurat_tables.rs")).read()
+    def arr(name):
+        m = re.search(r"%s\s*:\s*\[f64;\s*257\]\s*=\s*\[(.*?)\];" % name, src, re.S)
+        return [x.replace("_", "") for x in re.findall(r"-?\d[\d_]*\.?\d*(?:[eE][+-]?\d+)?", m.group(1))]
+    X, Fv = arr("ZIG_NORM_X"), arr("ZIG_NORM_F")
+    r = re.search(r"ZIG_NORM_R\s*:\s*f64\s*=\s*([\d\._]+)", src).group(1).replace("_", "")
+    def dy(lit):
+        m, e = f64_dyadic(float(lit))
+        return "(%d / %d)" % (m, 2 ** (-e)) if e < 0 else "(%d)" % (m * 2 ** e)
+    decimal.getcontext().prec = 60
+    D = decimal.Decimal
+    R = D(float(r))
+    s_, term, n = D(0), R, 0
+    while abs(term) > D("1e-55"):
+        s_ += term / (2 * n + 1); n += 1; term = -term * R * R / (2 * n)
+    T = (D(2).sqrt() * D("1.7724538509055160272981674833411451827975494561223871282138")) / 2 - s_
+    lo, hi = T * (1 - D("1e-10")), T * (1 + D("1e-10"))
+    fmt = lambda d: "(%d / 10^30)" % int(d * D(10) ** 30)
+    out = ["(* GENERATED by tools/rs2coq.py from src/ziggurat_tables.rs — do not edit *)",
+           "From Coq Require Import Reals ZArith List.", "From Coquelicot Require Import Coquelicot.", "From Interval Require Import Tactic.",
+           "Import ListNotations.", "Open Scope R_scope.", "",
+           "(* r = ZIG_NORM_R, x0 = ZIG_NORM_X[0], x1 = ZIG_NORM_X[1], f1 = ZIG_NORM_F[1]: the binary64 values of the source literals *)",
+           "Definition zn_r : R := %s." % dy(r), "Definition zn_x0 : R := %s." % dy(X[0]), "Definition zn_x1 : R := %s." % dy(X[1]),
+           "Definition zn_f1 : R := %s." % dy(Fv[1]),
+           "Definition zn_dy : list (Z * Z) := [%s]%%Z." % "; ".join("(%d, %d)" % f64_dyadic(float(v)) for v in (r, X[0], X[1], Fv[1])),
+           "Definition zn_lo : R := %s." % fmt(lo), "Definition zn_hi : R := %s." % fmt(hi), "",
+           "Lemma norm_tail_40 : zn_lo <= RInt (fun x => exp (-(x*x)/2)) zn_r 40 <= zn_hi.",
+           "Proof. unfold zn_lo, zn_hi, zn_r. integral with (i_prec 100, i_degree 20, i_fuel 4000). Qed.", "",
+           "Lemma norm_base_area_of_tail : forall t, zn_lo <= t <= zn_hi -> Rabs ((zn_x1 * zn_f1 + t) / (zn_x0 * zn_f1) - 1) <= 1 / 10^8.",
+           "Proof. intros t H. unfold zn_lo, zn_hi, zn_x0, zn_x1, zn_f1 in *. interval with (i_prec 100). Qed.", "",
+           "Theorem norm_base_area : Rabs ((zn_x1 * zn_f1 + RInt (fun x => exp (-(x*x)/2)) zn_r 40) / (zn_x0 * zn_f1) - 1) <= 1 / 10^8.",
+           "Proof. apply norm_base_area_of_tail. exact norm_tail_40. Qed."]
+    return "\n".join(out) + "\n"
+
+
 def main():
     repo, outd = REPO, OUT
     args = sys.argv[1:]
@@ -668,11 +713,12 @@ def main():
         c, index = gen_consts(repo)
         s = gen_sigs(repo)
         t = gen_tydesc(repo)
+        zt = gen_zig_norm_tail(repo)
     except Exception as e:
         write_if_changed(os.path.join(outd, "Unparsed.v"), "(* rs2coq could not process the source: %s *)\nDefinition unparsed : bool := true.\n" % str(e).replace("*)", "* )"))
         print("rs2coq: UNPARSED:", e)
         return 3
-    for name, text in (("ZigTables.v", z), ("Consts.v", c), ("Sigs.v", s), ("TyDesc.v", t)):
+    for name, text in (("ZigTables.v", z), ("Consts.v", c), ("Sigs.v", s), ("TyDesc.v", t), ("ZigNormTail.v", zt)):
         if write_if_changed(os.path.join(outd, name), text):
             changed.append(name)
     up = os.path.join(outd, "Unparsed.v")
